@@ -49,3 +49,6 @@ run $B/I4_k_expr.diff C10
 run $B/J1_negated_branch.diff C04 C18
 run $B/J2_div_regroup.diff C04 C07 C18
 run $B/J4_elif_chain.diff C04 C07 C18
+run $B/K1_reorder_power_branches.diff C08 C09
+run $B/K2_commute_correction_test.diff C11
+run $B/K3_add_condition_order.diff C14 C12
